@@ -160,6 +160,17 @@ def to_case(v):
                        {'kind': 'generated', 'layout_seed': lseed, 'cfg_seed': cseed})
 
 
+TAB_POLICY_PROGRAMS = [
+    ('ifdef-comments',
+     '// top\n#ifdef A\n// in group, depth 0\nint g1;\n#endif\nvoid f(int a)\n{\n// depth 1\n#if defined(B)\n/* group, depth 1 */\na++;\n'
+     'if (a)\n{\n// group, depth 2\n/* block\n   comment */\nwhile (a)\n{\n// group, depth 3\n#  ifdef C\n/* nested group, depth 3 */\na--;\n#  else\n'
+     '// else branch, depth 3\na -= 2;\n#  endif\n}\n}\n#else\n// else, depth 1\na--;\n#endif\n// after, depth 1\nreturn;\n}\n'),
+    ('ifdef-tabs-in',
+     '#if X\n\t// c0\n\tint g2;   \n#endif\nint h(int a)\n{\n\t#ifdef Y\n \t// space tab\n\t \tif (a)  \n\t\t{\n   \t\t\t// deep\n\t\t\ta++;\t\n'
+     '\t\t}\n\t#endif\n\treturn a;\n}\n'),
+]
+
+
 def main(ctx):
     quick = ctx.tier == 'quick'
     _EX.update(family.exclusions(ctx))
@@ -181,6 +192,18 @@ def main(ctx):
                 s2 = s2.rstrip(b'\r\n')
             cases.append(family.Case(s2, lang, draw_cfg(r, (0.0, 0.02, 0.05)[i % 3], i % 4 == 3),
                                      {'kind': 'corpus' if i % 2 == 0 else 'corpus-rewhitespaced', 'file': rel, 'cfg_index': i}))
+    # enumerated tab policies: own-line comments, statements and directives at depth 0..3 inside and outside conditional groups x
+    # indent_with_tabs x pp_indent_with_tabs x indent_columns x output_tab_size (the two policies meet on the lines between #if and #endif)
+    ntab = 0
+    for name, src in TAB_POLICY_PROGRAMS:
+        for iwt in ('0', '1', '2'):
+            for ppt in ('-1', '0', '1', '2'):
+                for ic, ots in (('2', '8'), ('4', '4'), ('4', '8'), ('8', '8'), ('8', '4'), ('3', '8')):
+                    for extra in ({}, {'pp_if_indent_code': 'true'}, {'pp_indent': 'add', 'pp_indent_count': ic}):
+                        cd = dict(extra, indent_with_tabs=iwt, pp_indent_with_tabs=ppt, indent_columns=ic, output_tab_size=ots, input_tab_size=ots)
+                        cases.append(family.Case(src.encode(), 'C', cd, {'kind': 'tab-policy', 'file': 'shape:' + name}))
+                        ntab += 1
+    ctx.extra['tab_policy_cases'] = ntab
     raw = family.explore(ctx, judge, cases)
     raw += family.hyp_explore(ctx, judge, make_strategy, to_case, shards=16, examples=(150 if quick else 4000))
     family.triage(ctx, judge, raw)
